@@ -100,7 +100,18 @@ fn main() {
     install_panic_hook();
     let stdout = std::io::stdout();
     let mut out = std::io::BufWriter::with_capacity(1 << 20, stdout.lock());
-    if let Some(line) = opts.replay.clone() {
+    let replay_lines: Vec<String> = match &opts.replay {
+        Some(l) if l.starts_with('@') => std::fs::read_to_string(&l[1..])
+            .expect("replay file")
+            .lines()
+            .filter(|x| !x.trim().is_empty() && !x.starts_with("//"))
+            .map(|x| x.to_string())
+            .collect(),
+        Some(l) => vec![l.clone()],
+        None => vec![],
+    };
+    for line in replay_lines.iter() {
+        let line = line.clone();
         match prop.as_str() {
             "C17" => c17::replay(&line, &mut out),
             "C20" => c20::replay(&line, &mut out),
@@ -110,6 +121,8 @@ fn main() {
                 std::process::exit(2);
             }
         }
+    }
+    if opts.replay.is_some() {
         out.flush().unwrap();
         return;
     }
